@@ -448,3 +448,13 @@ def r8(ctx):
 
 
 RULES.append(r8)
+
+
+@rule("R9", doc="the name-free shape under which e-nodes are compared and stored separates different slots: every LanguageChildren impl numbers through on_see_slot / add_slot, which take numbers from a counter that only grows (C16.D1, C16.N2)", once=True)
+def r9(ctx):
+    from . import c16
+    c16.d1(ctx)
+    c16.n2(ctx)
+
+
+RULES.append(r9)
